@@ -295,8 +295,13 @@ def select(prop, tier, seed=0):
         rng = random.Random(seed)
         for fam in sorted({o.get("family") for o in ALL if o["tier"] == "rotated" and o["props"][0] == prop}):
             cand = [o for o in ALL if o.get("family") == fam and o["tier"] == "rotated"]
-            fixed = [o for o in cand if o["gap"] in (0, 1, -1, 53, -53, 54, 1000)]
-            rest = [o for o in cand if o not in fixed and (abs(o["gap"]) <= 60 or fam == "acc9")]
+            if fam == "acc9" and not os.environ.get("VERIF_ALL_GAPS"):
+                # Algorithm 9: only the cases measured to close (gap 53, gaps >= 103, far case); gaps 54..102 time out
+                # (> 90 min each) and are reachable only through VERIF_ALL_GAPS=1
+                rows += [o for o in cand if o["gap"] in (53, 103, 105, 106, 107, 110, 1000)]
+                continue
+            fixed = [o for o in cand if o["gap"] in (0, 1, -1, 53, -53)]
+            rest = [o for o in cand if o not in fixed and abs(o["gap"]) <= 60]
             if os.environ.get("VERIF_ALL_GAPS"):
                 rows += cand      # full sweep (hours): every gap and both far cases of every variant
             else:
